@@ -98,6 +98,11 @@ Section Dbscan.
     if (minpts <? 1)%nat then None else dbscan n.
 End Dbscan.
 
+(* LinearKNNSearch::find_radius for training row i: `for j in 0..n { if distance(i, j) <= radius { push j } }`;
+   `within i j` stands for the test distance(row i, row j) <= radius *)
+Definition linear_radius (within : nat -> nat -> bool) (n i : nat) : list nat :=
+  filter (within i) (seq 0 n).
+
 (* ---------- predict ---------- *)
 Fixpoint incr (v : list nat) (j : nat) : list nat :=
   match v, j with
